@@ -121,3 +121,12 @@ Theorem C03_source_tie : forall g l x y, 0 <= gres g -> (l <= gdeep g)%nat ->
   = (ext_tuple (quadExtent g l x y), quadCentroid g l x y).
 Proof. exact gen_getQuadrantExtentAndCentroid_spec. Qed.
 Print Assumptions C03_source_tie.
+
+(** ** tie G (CLI glue): the deviation that validation reports (main.validateTileMatrixSet -> DeviationStats)
+    and the grid that snapping builds (snap.SnapPolygon -> FromTileMatrixSet) both refer to the DEEPEST requested
+    tile matrix, slices.Max of the ids — extracted from the AST of main.go and snap/snap.go on this run *)
+From Texel.Gen Require Import CliGen.
+Theorem C03_source_tie_deepest :
+  gen_validate_deepest_is_max = true /\ gen_snap_deepest_is_max = true.
+Proof. split; reflexivity. Qed.
+Print Assumptions C03_source_tie_deepest.
